@@ -1,5 +1,171 @@
-use vcommon::Args;
+//! Liquidity-side history monitors over `MonMarket` (both instantiations, `u64`/9 and `u128`/20):
+//!
+//! * C04 — a swap moves exactly the traded tokens and is all-or-nothing,
+//! * C05 — a swap never pays out more value than it takes in, beyond funded positive impact,
+//! * C06 — LP deposit / withdraw round trip, no dilution of the other LPs, first deposit at 1 USD,
+//! * C14 — position impact distribution respects the floor.
+//!
+//! The width-specific code lives in `liq_inst.rs` (world generator, driver, snapshots, reference
+//! valuation), `liq_swap.rs` (C04/C05), `liq_lp.rs` (C06) and `liq_dist.rs` (C14); those files are
+//! `include!`d once per instantiation below, with `T`/`S`/`D` bound to the concrete types, so that
+//! exactly the same monitor source runs over both number widths.
+use vcommon::{monitor::run_shards, Args, Monitor, Rng};
 
-pub fn run(_args: &Args) -> Option<i32> {
-    None
+#[path = "liq_util.rs"]
+mod liq_util;
+
+macro_rules! instantiate {
+    ($name:ident, $t:ty, $s:ty, $d:expr, $label:expr) => {
+        #[allow(dead_code, unused_imports, clippy::all)]
+        mod $name {
+            pub type T = $t;
+            pub type S = $s;
+            pub const D: u8 = $d;
+            pub const LABEL: &str = $label;
+            include!("liq_inst.rs");
+            include!("liq_swap.rs");
+            include!("liq_lp.rs");
+            include!("liq_dist.rs");
+        }
+    };
+}
+
+instantiate!(w64, u64, i64, 9, "u64/9");
+instantiate!(w128, u128, i128, 20, "u128/20");
+
+const WIDTHS: [&str; 2] = ["u64/9", "u128/20"];
+
+pub fn run(args: &Args) -> Option<i32> {
+    match args.id.as_str() {
+        "C04" => Some(run_swap(args, true)),
+        "C05" => Some(run_swap(args, false)),
+        "C06" => Some(run_lp(args)),
+        "C14" => Some(run_dist(args)),
+        _ => None,
+    }
+}
+
+fn require_both(mon: &mut Monitor, key: &str, min: u64) {
+    for w in WIDTHS {
+        mon.require(&format!("{w} {key}"), min);
+    }
+}
+
+const N_SHARDS: u64 = 64;
+
+const ASSUME_SCALE: &str = "token amounts and prices are generated at the magnitudes of the repository's own tests (u64/9: amounts up to ~1e11 base units at prices 1..5000; u128/20: 9-decimal tokens at 1e7..1e14 price units), plus boundary / oversized amounts that the model must refuse; prices always satisfy 0 < min <= max";
+const ASSUME_ATOMIC: &str = "model actions other than Swap are driven with the program's revertible-buffer contract: the driver snapshots the market before the action and restores it on Err or panic";
+const ASSUME_EXP: &str = "price impact exponents are whole units (1, 2 or 3); non-unit exponents are documented as unsupported in crates/model/src/fixed.rs";
+
+fn run_swap(args: &Args, is_c04: bool) -> i32 {
+    let rule = if is_c04 {
+        "C04. Cases: every swap().execute() inside random histories (seed deposits, then swaps in both directions mixed with deposits, withdrawals, position increases/decreases, clock advances, price moves with min<=max spreads, keeper re-configuration) over production-like and adversarial configurations (zero / 100 % / >100 % fees, positive impact factor > negative, exponent 1/2/3 units, tiny max_pool_amount / reserve factor, optional virtual inventory), both number widths. The swap is executed WITHOUT driver snapshot/restore. Oracle: success => (liquidity+swap_impact+claimable_fee) of token_in grows by exactly amount_in and of token_out shrinks by exactly report.token_out_amount, total supply / every other pool / clocks untouched, virtual inventory (if configured) moves by exactly the liquidity pool's deltas; Err => every pool, supply and clock bit-identical to the pre-state. Non-trivial = a successful swap, or a failure decided after the pool computations (not EmptySwap / invalid prices). distinct_nontrivial counts distinct behaviour classes: (width, direction, impact sign, capped, second-pool top-up, zero fee, virtual inventory, spread classes, log2 buckets of in/pool and out/pool) for successes and (width, failure reason, direction, virtual inventory, log2 bucket of in/pool) for failures."
+    } else {
+        "C05. Cases: the same swap histories as C04 (random histories over production-like and adversarial configurations, min<=max price spreads, both number widths). Oracle (exact BigInt, no rounding slack): for every successful swap out*P_out.max <= in*P_in.min + F where F = (token_out-side swap-impact pool decrease)*P_out.max + (token_in-side swap-impact pool decrease)*P_in.min, both decreases read from the pool state before/after (the in-side decrease is the second-pool top-up of a capped positive impact, converted by the code at P_in.min like the input itself); when the charged fee is zero and the price impact is zero (and the impact pools did not move) out == floor(in*P_in.min / P_out.max). Non-trivial = a successful swap. distinct_nontrivial counts distinct behaviour classes (width, direction, impact sign, capped, top-up, zero fee, virtual inventory, spread classes, log2 buckets of in/pool and out/pool, frictionless)."
+    };
+    let mut mon = Monitor::new(args, rule);
+    mon.assume(ASSUME_SCALE);
+    mon.assume(ASSUME_ATOMIC);
+    mon.assume(ASSUME_EXP);
+    let histories = args.scale(1_400, 16_000);
+    let steps = 60;
+    let tag = if is_c04 { 0xC04 } else { 0xC05 };
+    run_shards(&mut mon, args.threads, N_SHARDS, |shard, m| {
+        let mut rng = Rng::derive(args.seed, shard, tag);
+        for h in 0..histories {
+            if shard % 2 == 0 {
+                let prop = if is_c04 { w64::SwapProp::C04 } else { w64::SwapProp::C05 };
+                w64::swap_history(prop, &mut rng, m, steps, (shard, h));
+            } else {
+                let prop = if is_c04 { w128::SwapProp::C04 } else { w128::SwapProp::C05 };
+                w128::swap_history(prop, &mut rng, m, steps, (shard, h));
+            }
+        }
+    });
+    require_both(&mut mon, "swap_ok", 20_000);
+    require_both(&mut mon, "swap_fail", 5_000);
+    require_both(&mut mon, "swap_ok_positive_impact", 1_000);
+    require_both(&mut mon, "swap_ok_negative_impact", 1_000);
+    require_both(&mut mon, "capped_positive_impact_seen", 100);
+    require_both(&mut mon, "second_pool_topup_seen", 20);
+    require_both(&mut mon, "swap_ok_with_spread", 2_000);
+    if is_c04 {
+        require_both(&mut mon, "swap_fail: max_pool_amount_exceeded", 50);
+        require_both(&mut mon, "swap_fail: insufficient_reserve", 20);
+        require_both(&mut mon, "virtual_inventory_delta_checked", 500);
+    } else {
+        require_both(&mut mon, "exact_conversion_checked", 1_000);
+        require_both(&mut mon, "exact_conversion_checked_with_spread", 200);
+        require_both(&mut mon, "bound_checked_with_funded_positive_impact", 500);
+    }
+    mon.finish()
+}
+
+fn run_lp(args: &Args) -> i32 {
+    let rule = "C06. Cases: random histories (deposits on one or both sides, withdrawals incl. the whole supply, swaps, position increases/decreases creating pnl / position impact pool / accrued borrowing fees, clock advances, price moves with spreads, re-configuration) over production-like and adversarial configurations, both number widths. Every deposit and withdrawal is preceded by the program's pre-execute (distribute position impact, update borrowing, update funding) at the same timestamp, exactly as programs/store/src/ops/market.rs does. (a) round trip, on a copy of the reached state: deposit, then immediately withdraw all minted tokens at the same prices: value_out (outputs at MAX prices) <= value_in (inputs at MIN prices); a gain is classified by where it comes from (no positive impact / within the positive swap impact the deposit was funded with / beyond it / ownerless pool value at zero supply) and each class is a distinct violation signature. (b) every deposit and withdrawal leg (probes and history ops): with pool value V recomputed exactly in BigInt (tokens at picked price + pool share of accrued unpaid borrowing fees - capped net pnl - position impact pool) and cross-checked against the real pool_value, the aggregate value of the other LPs' tokens (others*V/supply as an exact rational) must not drop by more than the explicit rounding allowance: deposit leg, maximised/MaxAfterDeposit valuation (the one the deposit prices with): 4 market-token base units at the post-deposit token value (one per usd_to_market_token_amount rounding); withdrawal leg, minimised/MaxAfterWithdrawal and maximised/MaxAfterDeposit valuations: 1 base unit of each output token at its max price + 3 USD base units (the two price divisions, the market-token value and the two value splits). On the unchanged code every rounding favours the remaining LPs, so even drops inside the allowance are counted separately (expected 0). (c) a deposit at zero supply into an empty liquidity pool: sum over sides of floor(net_side*P_side.min/divisor) <= minted <= floor(sum(net_side*P_side.min)/divisor), net_side = tokens that entered the liquidity pool minus the pool's fee share. Non-trivial = a completed round trip or a first deposit that minted > 0. distinct_nontrivial counts behaviour classes (width, one/two-sided, impact sign, funded impact, open interest present, impact pool present, zero supply, spread classes, log2 bucket of the round-trip loss).";
+    let mut mon = Monitor::new(args, rule);
+    mon.assume(ASSUME_SCALE);
+    mon.assume(ASSUME_ATOMIC);
+    mon.assume(ASSUME_EXP);
+    mon.assume("deposit and withdrawal legs run right after the program's pre-execute (update_fees_state) at the same timestamp; the reference pool valuation is only defined for such states (borrowing and distribution clocks current)");
+    mon.assume("the deposit leg is not asserted under the minimised/MaxAfterWithdrawal valuation: with max_pnl_factor_for_withdrawals < max_pnl_factor_for_deposits that valuation legitimately moves against existing LPs when pending pnl is between the two caps");
+    let histories = args.scale(1_000, 12_000);
+    let steps = 50;
+    run_shards(&mut mon, args.threads, N_SHARDS, |shard, m| {
+        let mut rng = Rng::derive(args.seed, shard, 0xC06);
+        for h in 0..histories {
+            if shard % 2 == 0 {
+                w64::lp_history(&mut rng, m, steps, (shard, h));
+            } else {
+                w128::lp_history(&mut rng, m, steps, (shard, h));
+            }
+        }
+    });
+    require_both(&mut mon, "round_trip_completed", 10_000);
+    require_both(&mut mon, "round_trip_with_funded_positive_impact", 200);
+    require_both(&mut mon, "first_deposit_seen", 5_000);
+    require_both(&mut mon, "first_deposit_two_sided_seen", 500);
+    require_both(&mut mon, "others_value_checked deposit max/deposit", 10_000);
+    require_both(&mut mon, "others_value_checked withdraw min/withdrawal", 10_000);
+    require_both(&mut mon, "others_value_checked withdraw max/deposit", 10_000);
+    require_both(&mut mon, "leg_with_open_pnl", 1_000);
+    require_both(&mut mon, "leg_with_pending_borrowing", 500);
+    require_both(&mut mon, "leg_with_position_impact_pool", 500);
+    require_both(&mut mon, "pool_value_cross_checked", 20_000);
+    mon.finish()
+}
+
+fn run_dist(args: &Args) -> i32 {
+    let rule = "C14. Part 1 (site `pending`): PositionImpactMarketExt::pending_position_impact_pool_distribution_amount(dt) on directly constructed states: pool amount in {0, floor-1, floor, floor+1, floor+small, type max, biased, log-uniform}, floor and distribute factor in {0, default, 1, UNIT-1, UNIT, log-uniform, type-biased}, dt in {0, 1, seconds..years, u64::MAX, MAX-k, uniform, biased, log-uniform}. Part 2 (site `distribute`): histories of the real DistributePositionImpact action on a virtual clock (advance by 0 / small / huge, distribute repeatedly, pool moved by real position increases/decreases and by direct injection, parameters changed, deposits running the pre-execute). Oracle (exact BigInt): distributed == min(floor(dt*distribute_factor/UNIT), max(0, pool-floor)) (0 when the factor is 0), next == pool - distributed <= pool, pool >= floor => next >= floor, pool < floor => nothing distributed; for the action additionally: reported duration == now - last distribution, stored pool == reported next == old - distributed, short side and every other pool untouched, clock advanced; Err is accepted only when floor(dt*factor/UNIT) does not fit the number type (the documented intermediate), and is then restored by the driver. Non-trivial = any decided Ok case; distinct_nontrivial counts classes (width, site, pool vs floor relation, factor zero, dt zero, capped, distributed zero, log2 buckets of dt, factor/UNIT, pool/floor).";
+    let mut mon = Monitor::new(args, rule);
+    mon.assume(ASSUME_ATOMIC);
+    mon.assume("rate*elapsed is read as the code documents it: apply_factor(duration_in_seconds, distribute_factor) = floor(dt*factor/UNIT)");
+    let pure_cases = args.scale(600_000, 8_000_000);
+    let histories = args.scale(700, 8_000);
+    let steps = 60;
+    run_shards(&mut mon, args.threads, N_SHARDS, |shard, m| {
+        let mut rng = Rng::derive(args.seed, shard, 0xC14);
+        if shard % 2 == 0 {
+            w64::dist_pure_cases(&mut rng, m, pure_cases, shard);
+        } else {
+            w128::dist_pure_cases(&mut rng, m, pure_cases, shard);
+        }
+        for h in 0..histories {
+            if shard % 2 == 0 {
+                w64::dist_history(&mut rng, m, steps, (shard, h));
+            } else {
+                w128::dist_history(&mut rng, m, steps, (shard, h));
+            }
+        }
+    });
+    require_both(&mut mon, "pending_ok", 1_000_000);
+    require_both(&mut mon, "distribute_ok", 50_000);
+    require_both(&mut mon, "distribute_repeated_immediately", 5_000);
+    require_both(&mut mon, "capped_at_excess_over_floor", 10_000);
+    require_both(&mut mon, "rate_limited", 10_000);
+    require_both(&mut mon, "started_below_floor", 10_000);
+    require_both(&mut mon, "zero_elapsed", 10_000);
+    require_both(&mut mon, "huge_elapsed", 10_000);
+    require_both(&mut mon, "pool_moved_by_position_action", 1_000);
+    mon.finish()
 }
